@@ -219,7 +219,7 @@ pub fn mirror_scenario(prop: &str, seed: u64, index: u64) -> Option<Scenario> {
         // API histories the Python wrappers can express: solve again on the kept tree / roadmap,
         // setup again with ANOTHER callback (the problem definition is fixed at construction in
         // Python, so problem 1 = problem 0 checked against world 1 = world 0 plus one more ball)
-        let h = rng.below(10);
+        let h = rng.below(13);
         if h >= 6 {
             let mut w1 = scn.worlds[0].clone();
             let mut g2 = geo_for(&scn.space).ok()?;
@@ -258,6 +258,31 @@ pub fn mirror_scenario(prop: &str, seed: u64, index: u64) -> Option<Scenario> {
                     calls.extend(setup(0));
                     calls.push(solve.clone());
                 }
+                // setup again with the SAME problem (pysim then passes the identical callable):
+                // the core starts over from the start state
+                10 => {
+                    calls.extend(setup(0));
+                    calls.push(solve.clone());
+                    calls.extend(setup(0));
+                    calls.push(solve.clone());
+                }
+                11 => {
+                    calls.extend(setup(0));
+                    calls.push(solve.clone());
+                    calls.push(solve.clone());
+                    calls.extend(setup(0));
+                    calls.push(solve.clone());
+                    calls.extend(setup(0));
+                }
+                12 => {
+                    calls.extend(setup(1));
+                    calls.extend(setup(1));
+                    calls.push(solve.clone());
+                    calls.extend(setup(0));
+                    calls.push(solve.clone());
+                    calls.extend(setup(1));
+                    calls.push(solve.clone());
+                }
                 _ => {
                     calls.extend(setup(0));
                     calls.push(solve.clone());
@@ -292,12 +317,16 @@ pub fn mirror_scenario(prop: &str, seed: u64, index: u64) -> Option<Scenario> {
             return None;
         }
         scn.params.insert("fault_place".into(), place.min(2) as f64);
-        // sometimes a second (and third) solve on the same planner object
+        // sometimes a second (and third) solve on the same planner object, or setup again (the
+        // identical callable) and solve
         if rng.chance(0.25) {
             scn.calls.push(solve.clone());
             if rng.chance(0.3) {
                 scn.calls.push(solve.clone());
             }
+        } else if rng.chance(0.15) {
+            scn.calls.extend(setup(0));
+            scn.calls.push(solve.clone());
         }
         let mut w1 = scn.worlds[0].clone();
         w1.obstacles.push(Obstacle::Ball { c, r });
